@@ -5,6 +5,12 @@ generator or a lazy sequence object, rendered with combinations of mapping / no_
 batch (size, start); the body prints one line per iteration listing every documented variable that applies to the item
 kind; probes after the end tag show that nothing the tag bound is still visible; an else body marks empty sequences.
 Oracle: the documented values computed independently from the element positions.
+Second generator (`histories`): compiled documents of several dtml-in tags over one name (some nested over the same
+sequence), rendered repeatedly over data sets the caller keeps (same document + same data again, same document + other
+data, renderings after a failed rendering), with the remaining option spellings (sort keys with /cmp/desc and two keys,
+sort_expr, reverse_expr, every combination of start / end / size / orphan / overlap as literals or variables, inside and
+beyond the sequence) and x values that are equal but print differently; every rendering is compared with the documented
+text and the caller's sequences must be left as they were.
 Correspondence: the unbatched, unsorted subset over lists / tuples on the Lean interpreter model (op "render").
 """
 import json
@@ -73,19 +79,23 @@ def xval(item, kind):
     return None
 
 
-def expected(items, kind, opts):
-    """documented output"""
+def expected(items, kind, opts, order=None, window=None):
+    """documented output; `order` (displayed order as indices into items) and `window` (lo, hi: displayed positions of
+    that order) override what the simple option set of the first generator says"""
     n = len(items)
     if n == 0:
         return 'EMPTY' if opts.get('else') else ''
-    order = list(range(n))
-    if opts.get('sort'):
-        order.sort(key=lambda i: jx(xval(items[i], kind)))
-    if opts.get('reverse'):
-        order.reverse()
+    if order is None:
+        order = list(range(n))
+        if opts.get('sort'):
+            order.sort(key=lambda i: jx(xval(items[i], kind)))
+        if opts.get('reverse'):
+            order.reverse()
     seq = [items[i] for i in order]
     lo, hi = 0, n
-    if opts.get('size'):
+    if window is not None:
+        lo, hi = window
+    elif opts.get('size'):
         start = opts.get('start', 1)
         lo = start - 1
         hi = min(lo + opts['size'], n)
@@ -270,6 +280,462 @@ def run_direct(src, items, cont):
         return {'raise': type(e).__name__, 'msg': str(e)[:200]}
 
 
+# ---------------------------------------------------------------------------------------------------------------------
+# Second generator: HISTORIES of renderings.
+#
+# A history has 1..2 data sets (sequences that live as long as the history: the caller's own list / tuple / lazy sequence
+# object is handed to every rendering; iterators are re-created over the same element objects), 1..3 compiled documents
+# and 1..5 renderings (document, data set, per-rendering variables).  A document consists of 1..3 dtml-in tags over the
+# SAME name `seq` (name form or expr="seq"), some of them nested inside an outer loop over the same sequence.  The tags
+# use the option spellings the first generator does not: sort= with /cmp/desc and two keys, sort_expr (literal or a
+# variable that changes from rendering to rendering), reverse / reverse_expr (true, false, variable), and every
+# combination of the batch parameters start / end / size / orphan / overlap given as literals, as integer variables or as
+# numeric strings, with values inside and beyond the sequence.  A rendering may fail in the body of element k (variable
+# `boomat`); the history goes on afterwards.
+#
+# Oracle: every rendering of the history must give the documented text, computed from the element positions of the data
+# set as the caller built it (never from an earlier output); afterwards the caller's sequences must hold the same
+# elements in the same order with the same contents.  Where the documentation leaves one bound of a batch window open
+# (default size, orphans, start beyond the sequence, end before start) that bound -- and nothing else -- is read from the
+# displayed sequence-index values; everything printed for the displayed elements is still the documented value.
+
+OBJK = ('obj', 'map', 'tuple', 'tuplemap')
+TAIL = '#GONEGONEGONE'
+TAIL_SRC = ('#<dtml-var sequence-item missing="GONE"><dtml-var x missing="GONE">'
+            '<dtml-var sequence-index missing="GONE">')
+BOOM_SRC = '<dtml-if "_[\'sequence-index\'] == boomat"><dtml-raise KeyError>m</dtml-raise></dtml-if>'
+SORT_SPECS = ['x', 'x', 'y', 'x/cmp/desc', 'y/cmp/desc', 'x/cmp/asc', 'x,y']
+BATCH_COMBOS = [('start', 'size'), ('size',), ('start', 'end'), ('start', 'end'), ('end',), ('start',),
+                ('start', 'size', 'orphan'), ('size', 'orphan'), ('start', 'end', 'size'), ('end', 'size'),
+                ('start', 'size', 'overlap'), ('start', 'end', 'orphan', 'overlap')]
+LABEL_VAR = {'obj': 'sequence-item', 'str': 'sequence-item', 'int': 'sequence-item', 'tuple': 'sequence-key',
+             'tuplemap': 'sequence-key', 'map': 'sequence-var-y'}
+_SHARED = {}
+
+
+def shared_template(src):
+    """compiled documents are shared by all histories of a run: equal source = the same compiled object"""
+    from DocumentTemplate import HTML
+    t = _SHARED.get(src)
+    if t is None:
+        t = _SHARED[src] = HTML(src)
+    return t
+
+
+def gen_items2(r, kind, n):
+    """like gen_items; every structured element has x (with ties) and y (a permutation: all distinct); x may mix values
+    that are equal but print differently (1, 1.0, True)"""
+    flavour = r.choice(['int', 'int', 'str', 'mixed'])
+    ys = list(range(n))
+    r.shuffle(ys)
+    items = []
+    for i in range(n):
+        if flavour == 'str':
+            x = {'s': r.choice(['a', 'b', 'b', 'c'])}
+        elif flavour == 'mixed':
+            x = r.choice([1, 1.0, True, 2, 2.0, 3])
+        else:
+            x = r.choice([1, 2, 2, 3])
+        attrs = [['x', x], ['y', ys[i]]]
+        key = r.choice([{'s': 'k%d' % i}, i * 10])
+        if kind == 'obj':
+            items.append({'o': 100 + i, 'a': attrs})
+        elif kind == 'map':
+            items.append({'d': attrs})
+        elif kind == 'tuple':
+            items.append({'t': [key, {'o': 100 + i, 'a': attrs}]})
+        elif kind == 'tuplemap':
+            items.append({'t': [key, {'d': attrs}]})
+        elif kind == 'str':
+            items.append({'s': r.choice(['s%d' % i, 'x', ''])})
+        else:
+            items.append(r.choice([0, 5, -1, i]))
+    return items
+
+
+def to_py2(world, v):
+    if isinstance(v, float):
+        return v
+    if isinstance(v, dict):
+        if 't' in v:
+            return tuple(to_py2(world, x) for x in v['t'])
+        if 'd' in v:
+            return {k: to_py2(world, x) for k, x in v['d']}
+        if 'o' in v:
+            return proggen.Obj(v['o'], {k: to_py2(world, x) for k, x in v['a']})
+    return proggen.to_py(world, v)
+
+
+def fval(item, kind, field):
+    if kind == 'obj':
+        return dict(item['a'])[field]
+    if kind == 'map':
+        return dict(item['d'])[field]
+    if kind == 'tuple':
+        return dict(item['t'][1]['a'])[field]
+    return dict(item['t'][1]['d'])[field]
+
+
+def label(item, kind):
+    if kind in ('tuple', 'tuplemap'):
+        return jstr(item['t'][0])
+    if kind == 'map':
+        return jstr(fval(item, kind, 'y'))
+    return jstr(item)
+
+
+def display_order(items, kind, spec, rev):
+    """documented order: stable sort by the named keys (a /desc key: descending, ties in sequence order), then reversed"""
+    order = list(range(len(items)))
+    if spec:
+        fields = spec.split(',')
+        if len(fields) > 1:
+            order.sort(key=lambda i: tuple(jx(fval(items[i], kind, f)) for f in fields))
+        else:
+            parts = fields[0].split('/')
+            order.sort(key=lambda i: jx(fval(items[i], kind, parts[0])), reverse=parts[-1] == 'desc' and len(parts) == 3)
+    if rev:
+        order.reverse()
+    return order
+
+
+def doc_window(n, b):
+    """the displayed window (lo, hi: 0-based, half open) as far as the documentation fixes it; None = left open.
+    start = number of the first element shown, end = number of the last element shown (never beyond the sequence),
+    size = number of elements shown at once."""
+    s, e, z, orph = b.get('start'), b.get('end'), b.get('size'), b.get('orphan') or 0
+    lo = hi = None
+    if s is None:
+        if e is None:
+            lo = 0
+    elif 1 <= s <= n:
+        lo = s - 1
+    if e is not None:
+        if s is None or (s <= n and s <= e):
+            hi = min(e, n)
+    elif z is not None and lo is not None and not orph:
+        hi = min(lo + z, n)
+    if s is None and e is not None and z is not None and not orph:
+        lo = max(hi - z, 0)                 # the `size` elements that end with element number `end`
+    return lo, hi
+
+
+def draw_param(r, p, n, nested=False):
+    n = max(n, 1)
+    if p == 'start':
+        if nested:
+            return 1
+        return r.randint(1, n) if r.random() < 0.75 else r.randint(1, n + 3)
+    if p == 'end':
+        return r.randint(1, n + 4)
+    if p == 'size':
+        return r.randint(1, n + 1)
+    if p == 'orphan':
+        return r.randint(0, 3)
+    return r.randint(0, 2)
+
+
+def gen_seg(r, kind, p_batch, nested=False):
+    o = {'seqref': 'expr' if r.random() < 0.25 else 'name'}
+    if r.random() < 0.25:
+        o['noPush'] = True
+    if r.random() < 0.4:
+        o['prefix'] = r.choice(['pf', 'it'])
+    if r.random() < 0.4:
+        o['else'] = True
+    if kind in OBJK and r.random() < 0.4:
+        o['sort'] = [r.choice(['attr', 'attr', 'expr', 'var']), r.choice(SORT_SPECS)]
+    if r.random() < 0.5:
+        o['rev'] = r.choice(['attr', 'attr', 'expr1', 'expr0', 'var'])
+    if r.random() < p_batch:
+        combo = r.choice([('size',), ('start', 'end')]) if nested else r.choice(BATCH_COMBOS)
+        via = r.choice(['lit', 'lit', 'var', 'strvar'])
+        o['batch'] = {'params': list(combo), 'via': via,
+                      'vals': {p: draw_param(r, p, 6, nested) for p in combo} if via == 'lit' else None}
+    seg = {'o': o}
+    if nested:
+        outer = {'seqref': 'expr' if r.random() < 0.25 else 'name', 'noPush': True}
+        if kind in OBJK and r.random() < 0.3:
+            outer['sort'] = [r.choice(['attr', 'expr']), r.choice(SORT_SPECS)]
+        if r.random() < 0.4:
+            outer['rev'] = r.choice(['attr', 'expr1'])
+        seg['outer'] = outer
+    return seg
+
+
+def in_attrs(kind, o, si):
+    a = ['seq' if o.get('seqref', 'name') == 'name' else 'expr="seq"']
+    if kind in ('map', 'tuplemap'):
+        a.append('mapping')
+    if o.get('noPush'):
+        a.append('no_push_item')
+    if o.get('prefix'):
+        a.append('prefix=%s' % o['prefix'])
+    if o.get('sort'):
+        via, spec = o['sort']
+        a.append({'attr': 'sort="%s"' % spec, 'expr': 'sort_expr="\'%s\'"' % spec, 'var': 'sort_expr="sk"'}[via])
+    if o.get('rev'):
+        a.append({'attr': 'reverse', 'expr1': 'reverse_expr="1"', 'expr0': 'reverse_expr="0"',
+                  'var': 'reverse_expr="rv"'}[o['rev']])
+    b = o.get('batch')
+    if b:
+        for p in b['params']:
+            a.append('%s=%d' % (p, b['vals'][p]) if b['via'] == 'lit' else '%s=b%d_%s' % (p, si, p))
+    return ' '.join(a)
+
+
+def seg_src(kind, seg, si):
+    o = seg['o']
+    body = proggen.print_blocks(body_blocks(kind, o)) + (BOOM_SRC if o.get('boom') else '')
+    loop = '<dtml-in %s>%s%s</dtml-in>' % (in_attrs(kind, o, si), body, '<dtml-else>EMPTY' if o.get('else') else '')
+    if seg.get('outer'):
+        loop = ('<dtml-in %s>o<dtml-var sequence-number>=<dtml-var %s>:%s/<dtml-var sequence-number>;</dtml-in>'
+                % (in_attrs(kind, seg['outer'], si), LABEL_VAR[kind], loop))
+    return loop + TAIL_SRC
+
+
+def eff_sort(o, env):
+    if not o.get('sort'):
+        return None
+    via, spec = o['sort']
+    return env['sk'] if via == 'var' else spec
+
+
+def eff_rev(o, env):
+    rev = o.get('rev')
+    if rev == 'var':
+        return bool(env['rv'])
+    return rev in ('attr', 'expr1')
+
+
+def eff_batch(o, env, si):
+    b = o.get('batch')
+    if not b:
+        return None
+    if b['via'] == 'lit':
+        return dict(b['vals'])
+    return {p: int(env['b%d_%s' % (si, p)]) for p in b['params']}
+
+
+def shown_window(got_seg):
+    """first / one-past-last sequence-index the engine displayed in this segment's output (None, None if unreadable)"""
+    try:
+        lines = got_seg.rsplit('#', 1)[0].split(';')[:-1]
+        idx = [int(ln.split('|', 1)[0]) for ln in lines]
+        if not idx:
+            return None, None
+        return idx[0], idx[-1] + 1
+    except Exception:  # noqa
+        return None, None
+
+
+def seg_expected(seg, si, items, kind, env, got_seg, stats):
+    """('ok', text) | ('raise', class name) | ('bad', reason)"""
+    o = seg['o']
+    n = len(items)
+    if n == 0:
+        if seg.get('outer'):
+            return 'ok', TAIL
+        return 'ok', ('EMPTY' if o.get('else') else '') + TAIL
+    order = display_order(items, kind, eff_sort(o, env), eff_rev(o, env))
+    lo, hi = 0, n
+    b = eff_batch(o, env, si)
+    if b is not None:
+        lo, hi = doc_window(n, b)
+        if b.get('end') is not None and b['end'] > n:
+            stats['batch_end_beyond_length'] = stats.get('batch_end_beyond_length', 0) + 1
+        if b.get('start') is not None and b['start'] > n:
+            stats['batch_start_beyond_length'] = stats.get('batch_start_beyond_length', 0) + 1
+        if lo is None or hi is None:
+            stats['window=one_bound_from_output'] = stats.get('window=one_bound_from_output', 0) + 1
+            if got_seg is None:
+                return 'bad', 'a non-empty sequence must be rendered'
+            glo, ghi = shown_window(got_seg)
+            if glo is None:
+                return 'bad', 'no element of a non-empty sequence is displayed (or the output cannot be read)'
+            lo = glo if lo is None else lo
+            hi = ghi if hi is None else hi
+            if not (0 <= lo < hi <= n):
+                return 'bad', 'displayed window %r..%r contradicts the given start / end (positions %r..%r)' % (
+                    glo, ghi, lo, hi)
+        else:
+            stats['window=documented'] = stats.get('window=documented', 0) + 1
+    if o.get('boom') and lo <= env['boomat'] < hi:
+        return 'raise', 'KeyError'
+    inner = expected(items, kind, o, order=order, window=(lo, hi))
+    if seg.get('outer'):
+        oorder = display_order(items, kind, eff_sort(seg['outer'], env), eff_rev(seg['outer'], env))
+        text = ''.join('o%d=%s:%s/%d;' % (i + 1, label(items[j], kind), inner, i + 1) for i, j in enumerate(oorder))
+        return 'ok', text + TAIL
+    return 'ok', inner + TAIL
+
+
+def gen_history(r, focus):
+    kind = r.choice(['obj', 'obj', 'map', 'tuple', 'tuplemap', 'str', 'int'])
+    cont = r.choice(['list', 'list', 'list', 'tuple', 'lazy', 'iter', 'gen'])
+    reusable = cont in ('list', 'tuple', 'lazy')
+    lens = [r.choice([1, 2, 3, 3, 4, 5, 7])] + [r.choice([0, 1, 2, 3, 4, 6, 8]) for _ in range(r.choice([0, 1, 1]))]
+    datasets = [gen_items2(r, kind, n) for n in lens]
+    docs = []
+    for di in range(1 if focus == 'batch' else r.choice([1, 1, 2, 3])):
+        nseg = r.choice([1, 1, 2, 2, 3]) if (reusable and focus != 'batch') else 1
+        segs = [gen_seg(r, kind, 0.9 if focus == 'batch' else 0.25, nested=reusable and focus != 'batch' and r.random() < 0.25)
+                for _ in range(nseg)]
+        if r.random() < 0.3 and not segs[0].get('outer') and not segs[0]['o'].get('batch'):
+            segs[0]['o']['boom'] = True
+        docs.append({'segs': segs})
+    steps = []
+    for k in range(r.randint(1, 2) if focus == 'batch' else r.randint(2, 5)):
+        if steps and r.random() < 0.45:
+            ti, di = steps[-1][0], steps[-1][1]          # the same document over the same data again
+        else:
+            ti, di = r.randrange(len(docs)), r.randrange(len(datasets))
+        n = len(datasets[di])
+        env = {'sk': r.choice(SORT_SPECS), 'rv': r.choice([0, 1]), 'boomat': -1}
+        if docs[ti]['segs'][0]['o'].get('boom') and n and r.random() < 0.35:
+            env['boomat'] = r.randrange(n)
+        for si, seg in enumerate(docs[ti]['segs']):
+            b = seg['o'].get('batch')
+            if b and b['via'] != 'lit':
+                for p in b['params']:
+                    v = draw_param(r, p, n, bool(seg.get('outer')))
+                    env['b%d_%s' % (si, p)] = str(v) if b['via'] == 'strvar' else v
+        steps.append([ti, di, env])
+    return {'kind': kind, 'container': cont, 'datasets': datasets, 'docs': docs,
+            'templates': ['\n'.join(seg_src(kind, seg, si) for si, seg in enumerate(d['segs'])) for d in docs],
+            'steps': steps}
+
+
+def snapshot(data):
+    def one(v):
+        if isinstance(v, tuple):
+            return ('t',) + tuple(one(x) for x in v)
+        if isinstance(v, dict):
+            return ('d',) + tuple(sorted((k, repr(x)) for k, x in v.items()))
+        if isinstance(v, proggen.Obj):
+            return ('o',) + tuple(sorted((k, repr(x)) for k, x in v.__dict__.items()))
+        return repr(v)
+    return [one(v) for v in data]
+
+
+def run_history(h):
+    """render the history on the real code; returns (outputs, what happened to the caller's data)"""
+    world = proggen.World()
+    pydata = [[to_py2(world, it) for it in items] for items in h['datasets']]
+    reusable = h['container'] in ('list', 'tuple', 'lazy')
+    held = [container(h['container'], d) if reusable else None for d in pydata]
+    before = [snapshot(d) for d in pydata]
+    tmpls = [shared_template(src) for src in h['templates']]
+    outs = []
+    for ti, di, env in h['steps']:
+        seq = held[di] if reusable else container(h['container'], pydata[di])
+        try:
+            outs.append({'ok': tmpls[ti](seq=seq, **env)})
+        except Exception as e:  # noqa
+            outs.append({'raise': type(e).__name__, 'msg': str(e)[:200]})
+    damage = []
+    for di, d in enumerate(pydata):
+        if reusable:
+            now = list(held[di]._d if h['container'] == 'lazy' else held[di])
+            if len(now) != len(d) or any(a is not b for a, b in zip(now, d)):
+                damage.append('data set %d: the caller\'s %s no longer holds its elements in the order the caller gave '
+                              'them' % (di, h['container']))
+        if snapshot(d) != before[di]:
+            damage.append('data set %d: elements of the caller\'s sequence were modified' % di)
+    return outs, damage
+
+
+def check_history(h, outs, damage, stats):
+    """list of failure descriptions"""
+    bad = []
+    for k, ((ti, di, env), got) in enumerate(zip(h['steps'], outs)):
+        doc, items = h['docs'][ti], h['datasets'][di]
+        got_segs = None
+        if 'ok' in got:
+            got_segs = got['ok'].split('\n')
+            if len(got_segs) != len(doc['segs']):
+                got_segs = None
+        exp_parts, verdict = [], None
+        for si, seg in enumerate(doc['segs']):
+            tag, val = seg_expected(seg, si, items, h['kind'], env, got_segs[si] if got_segs else None, stats)
+            if tag == 'raise':
+                verdict = {'raise': val}
+                break
+            if tag == 'bad':
+                verdict = {'bad': 'dtml-in tag %d: %s' % (si, val)}
+                break
+            exp_parts.append(val)
+        if verdict is None:
+            verdict = {'ok': '\n'.join(exp_parts)}
+        if 'bad' in verdict:
+            bad.append('rendering %d (document %d, data set %d, variables %r): %s; the engine gives %r' % (
+                k, ti, di, env, verdict['bad'], got))
+        elif 'raise' in verdict:
+            if got.get('raise') != verdict['raise']:
+                bad.append('rendering %d (document %d, data set %d, variables %r): the body raises %s at element %d; '
+                           'the engine gives %r' % (k, ti, di, env, verdict['raise'], env['boomat'], got))
+        elif got != verdict:
+            bad.append('rendering %d (document %d, data set %d, variables %r): documented values give %r; the engine '
+                       'gives %r' % (k, ti, di, env, verdict['ok'], got))
+    return bad + damage
+
+
+def seg_sig(seg):
+    o = seg['o']
+    b = o.get('batch')
+    return (bool(seg.get('outer')), o.get('seqref'), bool(o.get('noPush')), bool(o.get('prefix')),
+            tuple(o['sort']) if o.get('sort') else None, o.get('rev'),
+            (tuple(b['params']), b['via']) if b else None, bool(o.get('boom')))
+
+
+def histories(res, tier):
+    r = common.rng('C10/histories')
+    stats = {}
+    plan = [('batch', 350 if tier == 'quick' else 6000), ('history', 450 if tier == 'quick' else 8000)]
+    for focus, count in plan:
+        for _ in range(count):
+            h = gen_history(r, focus)
+            outs, damage = run_history(h)
+            bad = check_history(h, outs, damage, stats)
+            res.evaluations += len(h['steps'])
+            res.count('history_focus=' + focus)
+            res.count('history_renderings', len(h['steps']))
+            res.count('history_kind=' + h['kind'])
+            res.count('history_container=' + h['container'])
+            pairs = [(s[0], s[1]) for s in h['steps']]
+            res.count('history_same_document_same_data_again', len(pairs) - len(set(pairs)))
+            res.count('history_same_document_other_data',
+                      sum(1 for t in {p[0] for p in pairs} if len({p[1] for p in pairs if p[0] == t}) > 1))
+            res.count('history_failed_rendering_then_more', sum(1 for s in h['steps'][:-1] if s[2]['boomat'] >= 0))
+            for d in h['docs']:
+                res.count('history_tags_per_document=%d' % len(d['segs']))
+                for seg in d['segs']:
+                    o = seg['o']
+                    if seg.get('outer'):
+                        res.count('history_nested_over_same_sequence')
+                    if o.get('batch'):
+                        res.count('batch=' + '+'.join(o['batch']['params']))
+                        res.count('batch_via=' + o['batch']['via'])
+                    if o.get('sort'):
+                        res.count('sort_via=' + o['sort'][0])
+                    if o.get('rev'):
+                        res.count('reverse_via=' + o['rev'])
+            res.nt(('history', h['kind'], h['container'], len(h['steps']) > 1,
+                    tuple(tuple(seg_sig(s) for s in d['segs']) for d in h['docs'])))
+            if bad:
+                res.oracle_fail.append({'case': {'kind': h['kind'], 'container': h['container'],
+                                                 'templates': h['templates'], 'datasets': h['datasets'],
+                                                 'renderings (document, data set, variables)': h['steps']},
+                                        'what': bad[0], 'more': bad[1:4]})
+            elif len(res.samples) < 5 and len(h['steps']) > 1 and focus == 'history':
+                res.sample({'templates': [t[:300] for t in h['templates']], 'datasets': [d[:2] for d in h['datasets']],
+                            'container': h['container'], 'renderings': h['steps'], 'outputs': [str(x)[:200] for x in outs]})
+    # replay: a wrong rendering first, a damaged caller sequence after those
+    res.oracle_fail.sort(key=lambda f: 0 if f['what'].startswith(('rendering', 'documented')) else 1)
+    for k, v in stats.items():
+        res.count(k, v)
+
+
 def run(res, tier, have_driver):
     r = common.rng('C10')
     res.rule = ('item kinds obj / mapping / 2-tuple / str / int x lengths 0..7 x containers list / tuple / iterator / generator / '
@@ -277,7 +743,19 @@ def run(res, tier, have_driver):
                 'sequence-index/-number/-letter/-Letter/-roman/-Roman/-even/-odd/-start/-end/-length, -item, -key, '
                 'sequence-var-x, first-x, last-x, the pushed attribute x and the prefixed aliases; probes after the end tag; nested '
                 'loops with different / no prefixes probing the outer loop\'s prefixed names, and a later unprefixed loop; '
-                'non-trivial = distinct (item kind, container, option set, length>1)')
+                'non-trivial = distinct (item kind, container, option set, length>1).  HISTORIES: 1..3 compiled documents '
+                '(shared between histories when the source is equal) of 1..3 dtml-in tags over the same name (name form / '
+                'expr form, some nested inside an outer loop over the same sequence) rendered 1..5 times over 1..2 data sets '
+                'that live as long as the history (the caller\'s own list / tuple / lazy object is handed to every rendering; '
+                'iterators are re-made over the same elements): same document + same data again, same document + other data '
+                '(other length, empty), renderings after a rendering whose body raised at element k; options sort= with '
+                '/cmp/asc|desc and two keys, sort_expr literal / variable changing per rendering, reverse, reverse_expr true / '
+                'false / variable, every combination of start / end / size / orphan / overlap as literals, integer variables or '
+                'numeric strings with values inside and beyond the sequence (explicit end beyond the length, start beyond the '
+                'length, end before start); x values that are equal but print differently (1, 1.0, True); every rendering must '
+                'give the documented text computed from the caller\'s data (where the documentation leaves a window bound open - '
+                'default size, orphan, start beyond the length - that bound alone is read from the displayed indexes) and the '
+                'caller\'s sequences must be left with the same elements, order and contents')
     n_cases = 500 if tier == 'quick' else 8000
     model_cases = []
     for ci in range(n_cases):
@@ -331,6 +809,7 @@ def run(res, tier, have_driver):
             model_cases.append(case)
         if len(res.samples) < 3 and n >= 2:
             res.sample({'source': src[:400], 'items': items[:3], 'container': cont, 'output': got})
+    histories(res, tier)
     nested = [nested_case(r) for _ in range(60 if tier == 'quick' else 1500)]
     res.have_driver = have_driver
     nruns = interp.run_cases(res, [c for c, e, k in nested])
@@ -355,7 +834,10 @@ def run(res, tier, have_driver):
                        'combinations and iterator / generator / lazy inputs are compared with the independent oracle only')
     res.assumptions += ['interpreter model validated (not verified) against the real classes',
                         'documented values: index/number/letter/roman/even/odd = position in the whole (sorted, reversed) '
-                        'sequence; start/end and first-x/last-x relative to the displayed window']
+                        'sequence; start/end and first-x/last-x relative to the displayed window',
+                        'batch windows: start = number of the first, end = number of the last displayed element (clamped to '
+                        'the length), size = number displayed; bounds the documentation leaves open (default size, orphan, '
+                        'start beyond the length, end before start) are read from the displayed indexes (C11 decides them)']
 
 
 def search_more(res, tier):
